@@ -4,10 +4,11 @@
    Notation: aff M t p = M p + t;  mdet M = det M;  cof M = cofactor matrix;
    similarity M s: M M^T = s^2 I (rotations, reflections, uniform scalings and
    their products);  rotation M: similarity M 1 and det M = 1. *)
-From Coq Require Import ZArith Reals List String Permutation Lra.
+From Coq Require Import ZArith Reals List String Permutation Lra Lia.
 Import ListNotations.
 From FV.C11 Require Import Model Entry Proofs ProofsVol ProofsArea ProofsRef ProofsGauss.
-From FV.C11.gen Require Import Kernels.
+From FV.C11 Require Import BrickModel ProofsBrick ProofsBrickGeom.
+From FV.C11.gen Require Import Kernels Brick.
 Open Scope R_scope.
 
 Local Notation A M t := (aff ROps M t).
@@ -195,6 +196,63 @@ Proof. exact quad_normals_centroid_rotation. Qed.
 Theorem C11_normalize_rotation : forall M v, rotation M ->
   normalize ROps (mapply ROps M v) = mapply ROps M (normalize ROps v).
 Proof. intros M v H. now apply (normalize_rot M H). Qed.
+
+(* ---- brick generator (util/brick_generator.py; templates translated into
+   gen/Brick.v, index filter / layout stated in BrickModel.v and checked verbatim
+   by the translator).  For ALL nx, ny, nz >= 1: *)
+(* the indices the comprehension keeps are exactly the first nodes of the
+   nx*ny*nz cells (a permutation of them, each once) *)
+Theorem C11_brick_kept_are_the_cells : forall nx ny nz, (1 <= nx)%Z -> (1 <= ny)%Z -> (1 <= nz)%Z ->
+  Permutation (filter (keep3 (nx + 1) (ny + 1) nz) (zrange ((nx + 1) * (ny + 1) * (nz + 1))))
+              (map (cell_first nx ny) (cells3 nx ny nz)).
+Proof. exact brick3_kept_are_the_cells. Qed.
+(* exactly the requested element counts *)
+Theorem C11_brick_count : forall nx ny nz, (1 <= nx)%Z -> (1 <= ny)%Z -> (1 <= nz)%Z ->
+  Z.of_nat (List.length (brick3_conn template_hex nx ny nz)) = (nx * ny * nz)%Z /\
+  Z.of_nat (List.length (brick3_conn template_tet nx ny nz)) = (6 * (nx * ny * nz))%Z /\
+  Z.of_nat (List.length (brick2_conn template_quad nx ny)) = (nx * ny)%Z /\
+  Z.of_nat (List.length (brick2_conn template_tri nx ny)) = (2 * (nx * ny))%Z.
+Proof.
+  intros nx ny nz Hx Hy Hz.
+  rewrite !brick3_element_count, !brick2_element_count by assumption.
+  cbv [template_hex template_tet template_quad template_tri List.length]. repeat split; lia.
+Qed.
+(* every generated element, through its node ids and the node positions, has
+   the cell volume in EVERY mode: positive orientation when dx, dy, dz > 0 *)
+Theorem C11_brick_hex_volumes : forall dx dy dz nx ny nz row,
+  (1 <= nx)%Z -> (1 <= ny)%Z -> (1 <= nz)%Z -> In row (brick3_conn template_hex nx ny nz) ->
+  apply8 (k_element_volumes_hex ROps) (row_points dx dy dz nx ny row) = Some (dx * dy * dz) /\
+  apply8 (k_element_volumes_hex_gaussian ROps) (row_points dx dy dz nx ny row) = Some (dx * dy * dz) /\
+  apply8 (k_element_volumes_hex_centroid ROps) (row_points dx dy dz nx ny row) = Some (dx * dy * dz).
+Proof. exact brick3_hex_volumes. Qed.
+Theorem C11_brick_tet_volumes : forall dx dy dz nx ny nz row,
+  (1 <= nx)%Z -> (1 <= ny)%Z -> (1 <= nz)%Z -> In row (brick3_conn template_tet nx ny nz) ->
+  apply4 (k_element_volumes_tet_like ROps) (row_points dx dy dz nx ny row) = Some (dx * dy * dz / 6).
+Proof. exact brick3_tet_volumes. Qed.
+(* 2D cells (lattice form): every mode gives dx dy (quad), dx dy / 2 (tri) *)
+Theorem C11_brick_quad_tri_cells : forall dx dy dz a b, 0 < dx -> 0 < dy ->
+  (forall row, In row template_quad ->
+     apply4 (k_element_areas_quad ROps) (cell_points dx dy dz a b 0 row) = Some (dx * dy) /\
+     apply4 (k_element_areas_quad_gaussian ROps) (cell_points dx dy dz a b 0 row) = Some (dx * dy) /\
+     apply4 (k_element_areas_quad_centroid ROps) (cell_points dx dy dz a b 0 row) = Some (dx * dy)) /\
+  (forall row, In row template_tri ->
+     apply3 (k_element_areas_tri ROps) (cell_points dx dy dz a b 0 row) = Some (dx * dy / 2)).
+Proof.
+  intros dx dy dz a b Hx Hy. split; intros row Hr;
+  [apply brick_quad_cell | apply brick_tri_cell]; assumption.
+Qed.
+(* the metrics add up to the box: (number of hexes) * (hex volume) = Lx Ly Lz, and the
+   sum of any list of nx*ny*nz values all equal to the cell volume is Lx Ly Lz *)
+Theorem C11_brick_sum : forall nx ny nz lx ly lz (vols : list R),
+  (1 <= nx)%Z -> (1 <= ny)%Z -> (1 <= nz)%Z ->
+  Z.of_nat (List.length vols) = (nx * ny * nz)%Z ->
+  Forall (fun v => v = (lx / IZR nx) * (ly / IZR ny) * (lz / IZR nz)) vols ->
+  tsum ROps vols = lx * ly * lz.
+Proof.
+  intros nx ny nz lx ly lz vols Hx Hy Hz Hlen Hall.
+  rewrite (tsum_const vols _ Hall), INR_IZR_INZ, Hlen.
+  now apply brick_box_volume.
+Qed.
 
 (* ---- relabelling: per-element results depend on node ids only through the
         id -> position lookup.  For every node table with distinct ids:
